@@ -28,9 +28,7 @@ type PropSpec struct {
 }
 
 // NotApplicable lists the properties that are not claimed, with the reason.
-var NotApplicable = map[string]string{
-	"C08": "Whole property is value equality across two wire formats (needs execution against a reference decoder: a different family). Its only mechanism of its own - the Visitor interface as sole coupling - is enforced by the Go compiler; every structural necessary condition static analysis can reach is already decided on the same code under C02, C07, C09, C10, C15, C16, C17; re-running those rules under a second id would be relabelling, not a decision (DESIGN.md section 4).",
-}
+var NotApplicable = map[string]string{}
 
 func (ps *PropSpec) RuleNames() []string {
 	var out []string
